@@ -161,7 +161,10 @@ pub fn run_app(
         config.paging_mode
     };
     let mut output_type =
-        OutputType::from_mode(&env, paging_mode, config.pager.clone(), &pager_cfg).unwrap();
+        match OutputType::from_mode(&env, paging_mode, config.pager.clone(), &pager_cfg) {
+            Ok(output_type) => output_type,
+            Err(err) => fatal(format!("Could not start the pager: {err}")),
+        };
     let mut writer: &mut dyn Write = if paging_mode == PagingMode::Capture {
         &mut capture_output.unwrap()
     } else {
